@@ -11,6 +11,7 @@ import (
 	"flag"
 	"fmt"
 	"os"
+	"runtime"
 	"runtime/debug"
 	"runtime/pprof"
 	"sort"
@@ -101,6 +102,7 @@ func runMain(args []string) {
 			job.Concrete = append(job.Concrete, v)
 		}
 	}
+	runtime.GOMAXPROCS(1)
 	res := runJob(ld, job, *trace, *smtlog)
 	if *jsonOut {
 		b, _ := json.MarshalIndent(res, "", " ")
